@@ -13,7 +13,6 @@ from geometer.utils import (
     is_multiple,
     is_numerical_dtype,
     is_numerical_scalar,
-    normalize_index,
     posify_index,
     sanitize_index,
 )
@@ -241,41 +240,69 @@ class Tensor:
         return f"{self.__class__.__name__}({self.array.tolist()})"
 
     def _get_index_mapping(self, index: TensorIndex) -> list[int | None]:
-        normalized_index = normalize_index(index, self.shape)  # type: ignore[no-untyped-call]
+        """Returns for every axis of ``self.array[index]`` the axis of ``self.array`` it stems from (None for new axes)."""
+        if not isinstance(index, tuple):
+            index = (index,)
+
+        # number of axes each index consumes and, for integers and arrays, the shape that takes part in broadcasting
+        consumed_axes = []
+        shapes: list[tuple[int, ...] | None] = []
+        for ind in index:
+            if ind is None or ind is Ellipsis:
+                consumed_axes.append(0)
+                shapes.append(None)
+            elif isinstance(ind, slice):
+                consumed_axes.append(1)
+                shapes.append(None)
+            else:
+                ind = np.asarray(ind)
+                if ind.dtype == bool:
+                    # a boolean array indexes as many axes as it has dimensions and is equivalent to ind.nonzero()
+                    consumed_axes.append(ind.ndim)
+                    shapes.append((np.count_nonzero(ind),))
+                else:
+                    consumed_axes.append(1)
+                    shapes.append(ind.shape)
+
+        # integers only remove an axis unless they are combined with arrays (advanced indexing)
+        advanced_indexing = any(s is not None and len(s) > 0 for s in shapes)
+        ellipsis_axes = self.rank - sum(consumed_axes)
+
+        index_mapping: list[int | None] = []
         advanced_indices = []
-        index_mapping: list[int | None] = list(range(self.rank))
-        i = 0
-        for ind in normalized_index:
-            # axis with integer index will be removed
-            if isinstance(ind, int):
-                index_mapping.pop(i)
-                continue
-
-            # new axis inserted by None index
+        first_advanced_axis = 0
+        axis = 0
+        for i, (ind, n, shape) in enumerate(zip(index, consumed_axes, shapes)):
             if ind is None:
-                index_mapping.insert(i, None)
-
-            # advanced indexing
-            elif isinstance(ind, np.ndarray):
-                advanced_indices.append(i)
-
-            i += 1
+                # new axis inserted by None index
+                index_mapping.append(None)
+            elif ind is Ellipsis:
+                index_mapping.extend(range(axis, axis + ellipsis_axes))
+                axis += ellipsis_axes
+            elif shape is None:
+                index_mapping.append(axis)
+                axis += 1
+            else:
+                if advanced_indexing:
+                    if len(advanced_indices) == 0:
+                        first_advanced_axis = len(index_mapping)
+                    advanced_indices.append(i)
+                axis += n
+        index_mapping.extend(range(axis, self.rank))
 
         if len(advanced_indices) == 0:
             return index_mapping
 
-        b = np.broadcast(*[normalized_index[i] for i in advanced_indices])
+        b = np.broadcast_shapes(*[shapes[i] for i in advanced_indices])  # type: ignore[arg-type]
+        new_indices: list[int | None] = [None] * len(b)
         a0, a1 = advanced_indices[0], advanced_indices[-1]
 
         if advanced_indices != list(range(a0, a1 + 1)):
-            # create advanced indices in front
-            for i in advanced_indices:
-                index_mapping.remove(i)
-            new_indices: list[int | None] = [None] * b.ndim
+            # advanced indices are separated by a slice, numpy creates the new axes in front
             return new_indices + index_mapping
-        else:
-            # replace indices with broadcast shape
-            return index_mapping[:a0] + [None] * b.ndim + index_mapping[a1 + 1 :]
+
+        # replace indices with broadcast shape
+        return index_mapping[:first_advanced_axis] + new_indices + index_mapping[first_advanced_axis:]
 
     def __getitem__(self, index: TensorIndex) -> Tensor | np.generic:
         result = self.array[index]
